@@ -51,6 +51,11 @@ theorem C13_validation_precedes_create :
     GNMI_SET_SIZE_LIMIT block — also end before `transactions.Create` is called. -/
 theorem C13_inline_guards_precede_create : Generated.setInlineGuardsBeforeCreate = true := by decide
 
+/-- Translator fact (the tie of `C13_refuses_unknown_target` to the code): `getTargetInfo` looks the
+    target up in the topology as a statement of its own body, before it consults the overrides
+    extension — no override can stand in for a target the topology does not know. -/
+theorem C13_topo_lookup_dominates_overrides : Generated.setTopoLookupDominatesOverrides = true := by decide
+
 /-- Translator fact: none of the helpers `Set` runs before the transaction exists calls a store at all. -/
 theorem C13_helpers_do_not_touch_stores :
     (Generated.setHelperCalls.all fun h => h.2.all fun c => !isStoreCall c) = true := by
